@@ -298,7 +298,7 @@ fn expand<S: Sut>(
     part: &mut Partial<S>,
     worker: usize,
 ) {
-    let cx = Cx { uni, canonical: cfg.alpha == Alphabet::Canonical, deep: cfg.deep };
+    let cx = Cx { uni, canonical: cfg.alpha == Alphabet::Canonical, deep: cfg.deep, deep_find_sides: true };
     // per-state observers
     for (name, f) in observers {
         pending_begin(worker, PendingInfo { run: cfg.run_label.clone(), hist: st.hist.clone(), op: None, at: name });
